@@ -8,6 +8,8 @@ Driver entries of the lifecycle group (C09).
      a0 a1       let the thread leave its parking place and advance to the next one; the digit is
                  what run_condition() returns if the thread is parked inside that call
      j           let the thread run freely (run_condition() = false from now on) and join it
+     jt          the same with run_condition() = true from now on (64 moves must suffice: meant for
+                 schedules in which teardown was requested)
 
 Parking places of the thread (= the places where the harness can hold the real thread):
   0 1 2 3 4   the schedule points of filtering_recursion()       (pc top, preWait, preInit, afterLoop, preFinal)
@@ -105,10 +107,10 @@ def newEvents (s : St) (n0 : Nat) : String :=
 def obs (tok : String) (s : St) (n0 : Nat) : String :=
   s!"{tok}:{newEvents s n0}:{place s.pc}:{if s.isRunning then 1 else 0}:{s.stepNumber}"
 
-def freeRun (cfg : Cfg) : Nat → T → T
+def freeRun (cfg : Cfg) (c : Bool) : Nat → T → T
   | 0, t => t
-  | n + 1, t => match thr t.s false with
-    | some _ => freeRun cfg n (t.step cfg (.t false))
+  | n + 1, t => match thr t.s c with
+    | some _ => freeRun cfg c n (t.step cfg (.t c))
     | none => t
 
 structure Run where
@@ -131,14 +133,15 @@ def runTok (cfg : Cfg) (r : Run) (tok : String) : Option Run :=
       let t1 := advance cfg r.t (tok == "a1")
       let t2 := r.pending.foldl (applyCmd cfg) t1
       some { r with t := t2, pending := [], out := r.out.push (obs tok t2.s n0) }
-    else if tok == "j" then
-      let t1 := r.pending.foldl (applyCmd cfg) (freeRun cfg 64 r.t)
-      let t2 := freeRun cfg 64 t1
+    else if tok == "j" || tok == "jt" then
+      let c := tok == "jt"
+      let t1 := r.pending.foldl (applyCmd cfg) (freeRun cfg c 64 r.t)
+      let t2 := freeRun cfg c 64 t1
       if t2.s.pc == .done then
         let t3 := t2.step cfg (.c .wait)
         some { r with t := t3, pending := [], out := r.out.push (obs tok t3.s n0) }
       else
-        some { r with t := t2, pending := [], out := r.out.push "j:hang", hung := true }
+        some { r with t := t2, pending := [], out := r.out.push (tok ++ ":hang"), hung := true }
     else none
 
 def cfgOf : String → Option Cfg
